@@ -433,7 +433,7 @@ def c12_7(cx):
     for site, kind, node in [(x, k, n) for x, k, n in value_defs(t, 0)]:
         pass
     mx = [s for s in t.all_sites() if not s.is_term() and s.node()["k"] == "assign" and t._origin_def(s, "assign", s.node(), 0, None, ()) == "function::execute::collect_all_cycle_heads($1, zalsa_local::ActiveQueryGuard::<'me>::take_cycle_heads($2), $2.database_key_index, $4).0"]
-    none_outer = CallIs(r"^std::option::Option::<T>::is_none$", True, [outer], desc="outer_cycle.is_none()")
+    none_outer = VariantIn(outer, {"None"}, desc="there is no outer cycle")
     chosen = [s for s in mx if OnlyIf(cx.facts, t).guarded(s, dep)]
     cx.sites(chosen, 1, "selection of max_iteration as the head's iteration")
     for s in chosen:
@@ -458,9 +458,41 @@ def c12_7(cx):
     cx.flow(r, ra[1], [r"Iterator>::next\(.*\)@Some\.0\.database_key_index$"], [], "and descends into the head just read", rec)
     # the fold of depends_on_self over the heads is an OR (an assignment would forget an earlier `true`)
     for body in (r, cx.fn(EXE + r"collect_all_cycle_heads$")):
-        ors = [x for x in body.all_sites() if not x.is_term() and x.node()["k"] == "assign" and x.node()["rv"]["k"] == "bin" and x.node()["rv"]["op"] == "BitOr"]
-        nested = [x for x in ors if re.search(r"collect_recursive\(.*\)\.1", body.origin_op(x.node()["rv"]["b"], 0, None, x)) or re.search(r"collect_recursive\(.*\)\.1", body.origin_op(x.node()["rv"]["a"], 0, None, x))]
-        cx.check(len(nested) >= 1, "%s: depends_on_self accumulates the recursive answers with OR" % body.short, (ors or [None])[0], key="or-fold " + body.short, body=body)
+        ok = False
+        first = None
+        for x in body.all_sites():
+            if x.is_term() or x.node()["k"] != "assign" or x.node()["p"]["pj"]:
+                continue
+            rv = x.node()["rv"]
+            if rv["k"] == "bin" and rv["op"] == "BitOr":
+                if any(re.search(r"collect_recursive\(.*\)\.1", body.origin_op(rv[k], 0, None, x)) for k in ("a", "b")):
+                    ok = True  # `acc |= nested`
+                    first = first or x
+            elif rv["k"] == "use":
+                o = body.origin_op(rv["o"], 0, None, x)
+                if re.search(r"^phi\{(const:1 \| .*collect_recursive\(.*\)\.1|.*collect_recursive\(.*\)\.1 \| const:1)\}$", o):
+                    # `acc = acc || nested`: acc := true when it already was true, otherwise the recursive answer;
+                    # confirm that the selecting switch tests (a copy of) the accumulator itself
+                    acc = x.node()["p"]["l"]
+                    first = first or x
+                    for bi in body.live_blocks():
+                        t = body.blocks[bi]["term"]
+                        if t["k"] != "switch":
+                            continue
+                        op = t["o"].get("c") or t["o"].get("m")
+                        if not op or op["pj"]:
+                            continue
+                        src = op["l"]
+                        ds = body.full_defs(src)
+                        if src != acc and len(ds) == 1 and ds[0][1] == "assign" and ds[0][2]["rv"]["k"] == "use":
+                            q = ds[0][2]["rv"]["o"].get("c") or ds[0][2]["rv"]["o"].get("m")
+                            if q and not q["pj"]:
+                                src = q["l"]
+                        if src == acc and body.reaches(Site(body, bi, 0), x):
+                            ok = True
+                elif re.search(r"collect_recursive\(.*\)\.1$", o) and x.node()["p"]["l"] not in (None,):
+                    first = first or x
+        cx.check(ok, "%s: depends_on_self accumulates the recursive answers with OR" % body.short, first, key="or-fold " + body.short, body=body)
     maxes = cx.some_calls(r, r"^std::cmp::Ord::max$", 2, "max folds in collect_recursive")
     cx.check(not r.calls(r"^std::cmp::Ord::min$"), "iterations are folded with max, never min", maxes[0], key="no-min")
     c = cx.fn(EXE + r"collect_all_cycle_heads$")
